@@ -248,13 +248,77 @@ def sampled_case(expr, method, n, k, orient=None, side=None, link_only=False, de
 # ---- generic boundary point of a piece -> real normal -------------------------------------------
 
 
-def generic_case(expr, leaf_idx, piece, k=0, orient=None, dep=None, **kw):
+def _generic_claims(o, i, p, nu, prm, L, skip_tag, with_forms=False):
+    """the oracle's claims at the generic point; for the polygon the point was built on, the premises (polynomial
+    predicates of p) are replaced by their normal forms in the edge parameter -- the equivalence is proved in the
+    premises/... cases, not assumed.  Claims for the vertex orientation the case excludes by assumption are dropped."""
+    aux, sh = o["aux"], o["sh"]
+    forms = N.edge_point_premises(aux["m"], aux["edge"], aux["t"][i], L, TAU) if "t" in aux else {}
+    out = []
+    for cn, lf, conds, prem, concl in N.claims3(sh.oset, p, nu, prm, L, TAU, _tol(L)):
+        if skip_tag and ("@" + skip_tag) in cn:
+            continue
+        base = cn.split(".")[-1].split("@")[0]
+        if lf is o["leaf"].oset and base in forms:
+            out.append((cn, conds, forms[base], concl) if not with_forms else (cn, conds, prem, forms[base]))
+        elif not with_forms:
+            out.append((cn, conds, prem, concl))
+    return out
+
+
+def _is_t_form(prem, o):
+    """the premise is a normal form in the edge parameter only (bool or a formula over the t symbols)"""
+    if isinstance(prem, bool):
+        return True
+    try:
+        import z3
+        from symtorch import term as T
+        if not isinstance(prem, z3.ExprRef):
+            return False
+        names = set(T.free_vars(prem))
+        tn = set()
+        for t in o["aux"].get("t", []):
+            tn |= set(T.free_vars(t))
+        return names <= tn
+    except Exception:
+        return False
+
+
+ZONES = ("v0", "z0", "mid", "z1", "v1")  # partition of the edge parameter: {0}, (0,tau], (tau,1-tau), [1-tau,1), {1}
+
+
+def _zone(L, t, zone):
+    tau = L.num(TAU)
+    return {"v0": L.eq(t, 0), "z0": L.And(L.gt(t, 0), L.le(t, tau)), "mid": L.And(L.gt(t, tau), L.lt(t, 1 - tau)),
+            "z1": L.And(L.ge(t, 1 - tau), L.lt(t, 1)), "v1": L.eq(t, 1)}[zone]
+
+
+def _relation(L, zone_f, prem):
+    """how a premise (a condition on the edge parameter) relates to the zone the case assumes:
+    'never' (disjoint), 'always' (zone implies it) or 'partly'"""
+    if prem is True or prem is False:
+        return "always" if prem else "never"
+    if not L.symbolic:
+        return "always" if prem else "never"
+    import z3
+    s = z3.Solver()
+    s.add(zone_f, prem)
+    if s.check() == z3.unsat:
+        return "never"
+    s = z3.Solver()
+    s.add(zone_f, z3.Not(prem))
+    return "always" if s.check() == z3.unsat else "partly"
+
+
+def generic_case(expr, leaf_idx, piece, k=0, orient=None, dep=None, premises_only=False, zone=None, **kw):
     name = expr_name(expr) + ("[t]" if dep else "")
     leaf_e = expr_leaves(expr)[leaf_idx]
     composite = expr[0] not in SH.PRIMS
     where = ("%s%s:%s" % (leaf_e[0], leaf_e[1], piece)) if composite else piece
     tag = name + ("/" + orient if orient else "")
-    cname = "generic/%s/%s/k%d" % (tag, where, k)
+    cname = "%s/%s/%s%s/k%d" % ("premises" if premises_only else "generic", tag, where, ":" + zone if zone else "", k)
+    # claims about the other vertex orientation have a premise the case's assumption contradicts
+    other = "ccw" if orient in ("neg", "cw") else "cw"
 
     def body(env):
         node = build(env, expr, dep)
@@ -266,6 +330,9 @@ def generic_case(expr, leaf_idx, piece, k=0, orient=None, dep=None, **kw):
         _orientation(env, node, rows, orient)
         leaf = node.leaves()[leaf_idx]
         pt, aux = generic_point(env, leaf, piece, P, nrows)
+        if zone:  # one case per zone of the edge: every claim is then decided without the path condition
+            for t in aux["t"]:
+                env.assume(_zone(L, t, zone))
         d = pt.shape[1]
         el = SH.elems(env, pt)
         prow = [el[i * d:(i + 1) * d] for i in range(nrows)]
@@ -274,8 +341,18 @@ def generic_case(expr, leaf_idx, piece, k=0, orient=None, dep=None, **kw):
             for p, prm in zip(prow, prms):
                 env.assume(N.selected(sh.oset, p, prm, L, TAU))
         X = sh.dom.space
-        nrm = sh.dom.boundary.normal(Points(pt.clone(), X), P)
+        nrm = None if premises_only else sh.dom.boundary.normal(Points(pt.clone(), X), P)
         return dict(nrm=nrm, p=prow, sh=sh, prms=prms, n=nrows, leaf=leaf.sh, aux=aux)
+
+    def premise_goals(o, L, env):
+        seen = set()
+        for i, (p, prm) in enumerate(zip(o["p"], o["prms"])):
+            yield "generic_point_on_piece[row%d]" % i, N.on_some_piece(o["leaf"].oset, p, prm, L)
+            for cn, conds, prem, form in _generic_claims(o, i, p, [0] * len(p), prm, L, None, with_forms=True):
+                base = cn.split("@")[0]
+                if (i, base) not in seen:  # claims that differ only in orientation / lemma share their premise
+                    seen.add((i, base))
+                    yield "premise_normal_form:%s[row%d]" % (base, i), L.Iff(prem, form)
 
     def goals(o, L, env):
         sh = o["sh"]
@@ -284,27 +361,25 @@ def generic_case(expr, leaf_idx, piece, k=0, orient=None, dep=None, **kw):
         yield "one_normal_per_point", len(nrm) == o["n"] and all(len(r) == d for r in nrm)
         if len(nrm) != o["n"]:
             return
+        yield "vertex_lemma_closure", N.vertex_lemma_closure(L)
         for i, (p, nu, prm) in enumerate(zip(o["p"], nrm, o["prms"])):
             yield "generic_point_on_piece[row%d]" % i, N.on_some_piece(o["leaf"].oset, p, prm, L)
             yield "unit[row%d]" % i, N.unit(nu, L, _tol(L))
-            aux = o["aux"]
-            forms = N.edge_point_premises(aux["m"], aux["edge"], aux["t"][i], L, TAU) if "t" in aux else {}
-            for cn, lf, conds, prem, concl in N.claims3(sh.oset, p, nu, prm, L, TAU, _tol(L)):
-                base = cn.split(".")[-1].split("@")[0]
-                if lf is o["leaf"].oset and base in forms:
-                    # the premise (a polynomial predicate of p) is replaced by its normal form in the edge parameter;
-                    # the equivalence is proved, not assumed
-                    S = forms[base]
-                    yield "premise_form:%s[row%d]" % (cn, i), L.Iff(prem, S)
-                    if S is not False:
-                        yield "outward:%s[row%d]" % (cn, i), L.Implies(L.And(*(conds + [S])), concl)
-                else:
+            zf = _zone(L, o["aux"]["t"][i], zone) if zone else None
+            for cn, conds, prem, concl in _generic_claims(o, i, p, nu, prm, L, other):
+                if zf is not None and _is_t_form(prem, o):
+                    rel = _relation(L, zf, prem)
+                    if rel == "never":  # premise excluded by the zone this case assumes
+                        continue
+                    if rel == "always":
+                        prem = True
+                if prem is not False:
                     yield "outward:%s[row%d]" % (cn, i), L.Implies(L.And(*(conds + [prem])), concl)
 
     opts = dict(max_paths=64, max_decisions=64, max_forks_per_site=8, split=("abs", "where"))
     opts.update(kw)
-    return Case(cname, body, goals, family="generic/" + tag, params=dict(shape=name, piece=where, k=k, orient=orient),
-                check_obligations=not _poly_operand(expr), **opts)
+    return Case(cname, body, premise_goals if premises_only else goals, family=("premises/" if premises_only else "generic/") + tag,
+                params=dict(shape=name, piece=where, k=k, orient=orient), check_obligations=not _poly_operand(expr), **opts)
 
 
 # ---- composition layer on arbitrary operands ----------------------------------------------
@@ -376,7 +451,7 @@ def cases(tier):
     # solver strategy for the sqrt/quotient chains of polygon normals (opt-in hook of symtorch/smt.py): nlsat with
     # variable ordering strategy 5 is tried first with a small budget; the standard strategies follow unchanged
     from symtorch import smt, harness, explore
-    smt.PRE_STRATEGIES = (("nlsat-vo5", 4000 if quick else 15000),)
+    smt.PRE_STRATEGIES = (("nlsat-vo5", 4000 if quick else 15000), ("nlsat-noreorder", 3000 if quick else 10000))
     harness.EXTRA_RUNGS = ("cone-strong",)          # goal-relevant defining axioms only, at full strength
     explore.FEAS_FALLBACK = ("nlsat-vo5", 1500)      # prune branches the incremental solver cannot refute
     cs = []
@@ -397,7 +472,9 @@ def cases(tier):
     for e, orients in ((PG, ("pos", "neg")), (TR, ("ccw", "cw"))):
         for orient in orients:
             for pc in pieces(e[0]):
-                cs.append(generic_case(e, 0, pc, 0, orient=orient))
+                for z in ZONES:
+                    cs.append(generic_case(e, 0, pc, 0, orient=orient, zone=z))
+                cs.append(generic_case(e, 0, pc, 0, orient=orient, premises_only=True))
         # link: the real boundary samplers return points on those edges (any orientation)
         cs.append(sampled_case(e, "random", 1, 0, link_only=True))
         cs.append(sampled_case(e, "random", 2, 0, link_only=True))
@@ -407,7 +484,10 @@ def cases(tier):
     for op in "+-&":
         cs.append(abstract_case(op))
         cs.append(abstract_case(op, with_params=True))
-    # Boolean operations of intervals (linear queries)
+    # Boolean operations of intervals: generic end points of both operands (linear queries)
     for op in "+-&":
-        cs.append(sampled_case((op, ("Interval", "A"), ("Interval", "B")), "random", 1, 0))
+        e = (op, ("Interval", "A"), ("Interval", "B"))
+        for li in (0, 1):
+            for pc in ("lb", "ub"):
+                cs.append(generic_case(e, li, pc, 0))
     return cs
